@@ -114,6 +114,43 @@ Section Src.
     destruct (i <? n); reflexivity.
   Qed.
 
+  (** the pattern- and predicate-based advances through the SourceText wrappers of a source with a start position:
+      the metrics-level answers, translated by the offset *)
+  Theorem src_position_after_chars_matching_G i f : i <= n ->
+    src_position_after_chars_matching s (G i) f =
+    Ok (match class_run m f (skipn i us) with 0 => None | j => Some (G (i + j)) end).
+  Proof.
+    intros Hi. unfold src_position_after_chars_matching. cbn [smet stext soff].
+    rewrite (wbo i _ _ (position_after_chars_matching_P m Htab us Hwf p0 Hp0 i f Hi)).
+    destruct (class_run m f (skipn i us)); reflexivity.
+  Qed.
+
+  Theorem src_next_position_after_chars_matching_G i f : i <= n ->
+    src_next_position_after_chars_matching s (G i) f =
+    Ok (match skipn i us with
+        | u :: _ => if forallb f (utext m u) then Some (G (S i)) else None
+        | [] => None
+        end).
+  Proof.
+    intros Hi. unfold src_next_position_after_chars_matching. cbn [smet stext soff].
+    rewrite (wbo i _ _ (next_position_after_chars_matching_P m Htab us Hwf p0 Hp0 i f Hi)).
+    destruct (skipn i us) as [|u r]; [reflexivity|]. destruct (forallb f (utext m u)); reflexivity.
+  Qed.
+
+  Theorem src_position_after_str_G i pat : i <= n -> wf_text pat ->
+    exists r, src_position_after_str s (G i) pat = Ok r /\
+      (forall q, r = Some q -> exists j, i + j <= n /\ ctext m (firstn j (skipn i us)) = pat /\ q = G (i + j)) /\
+      (forall j, i + j <= n -> ctext m (firstn j (skipn i us)) = pat -> r = Some (G (i + j))).
+  Proof.
+    intros Hi Hp.
+    destruct (position_after_str_P m Htab us Hwf p0 Hp0 i pat Hi Hp) as (r & E & H1 & H2).
+    exists (option_map (shiftb (byte off)) r). unfold src_position_after_str. cbn [smet stext soff].
+    split; [exact (wbo i _ _ E)|]. split.
+    - intros q Hq. destruct r as [q0|]; [|discriminate Hq]. injection Hq as <-.
+      destruct (H1 q0 eq_refl) as (j & Hj & Ej & ->). exists j. split; [exact Hj|]. split; [exact Ej|reflexivity].
+    - intros j Hj Ej. rewrite (H2 j Hj Ej). reflexivity.
+  Qed.
+
   Theorem src_is_line_break_G i : i <= n ->
     src_is_line_break s (byte (G i)) =
     Ok (match nth_error us i with Some u => is_lb u | None => false end).
